@@ -541,8 +541,9 @@ def run_sequence(seq, wd, log=None):
         post = snapshot(model)
 
         def emit_state(sig, what, expected=None, observed=None):
-            if aborted and kind == "mixture_logistic" and op.get("algo") in MCMC and sig.startswith("state:call-values-left-behind") \
-                    and r1[1] in ("RuntimeError", "IndexError"):
+            # the listed defect: an MCMC personalisation of a mixture model that aborts (it always does: RuntimeError / IndexError in
+            # time_reparametrization; ValueError when a diverged fit left NaN probabilities) has already written its data into model.state
+            if aborted and kind == "mixture_logistic" and op.get("algo") in MCMC and sig.startswith("state:call-values-left-behind"):
                 sig = MIX_SIG
             emit(sig, what, expected, observed)
 
